@@ -36,13 +36,13 @@ def run(tier, seed, scale):
         Phase("rel-2cpu", "c06", "rel", 12000 if q else 120000, procs=2 if q else 4, cpus=2),
         Phase("rel-1cpu", "c06", "rel", 5000 if q else 60000, procs=2 if q else 4, cpus=1),
         Phase("dbg-hot", "c06", "dbg", 24000 if q else 250000, procs=3 if q else 6),
-        Phase("tsan", "c06", "tsan", 2100 if q else 25000, procs=3 if q else 6, timeout=1500),
+        Phase("tsan", "c06", "tsan", 2100 if q else 36000, procs=3 if q else 6, timeout=1500),
         # exhaustive: every single-inversion position for every size around the cut-off
         Phase("rel-sortinv", "c06", "rel", inv_cases(1 if q else 5), procs=1, args=["--mode", "sortinv", "--conc", "4"]),
     ]
     if not q:
         phases += [
-            Phase("asan", "c06", "asan", 40000, procs=6, timeout=1800),
+            Phase("asan", "c06", "asan", 90000, procs=6, timeout=1800),
             Phase("dbg-sortinv", "c06", "dbg", inv_cases(3), procs=1, args=["--mode", "sortinv", "--conc", "8"]),
             Phase("rel-reduce", "c06", "rel", 250000, procs=4, args=["--mode", "reduce"]),
             Phase("rel-det", "c06", "rel", 60000, procs=4, args=["--mode", "det"]),
@@ -73,7 +73,8 @@ def run(tier, seed, scale):
     for cls in "RDSQ":
         chk.require(st.get("parallel_" + cls, 0) > (100 if q else 1000), "too few class-%s scenarios ran on >= 2 threads" % cls)
     mt = st.get("multi_task", 0)
-    chk.require(mt > 0 and chk.nontrivial * 4 >= mt, "only %d of %d multi-chunk scenarios ran on >= 2 threads" % (chk.nontrivial, mt))
+    # measured 0.26 (box loaded by ~100 runnable threads of other jobs) .. 0.45 (idle box); the 1- and 2-CPU phases pull it down by design
+    chk.require(mt > 0 and chk.nontrivial * 100 >= 15 * mt, "only %d of %d multi-chunk scenarios ran on >= 2 threads" % (chk.nontrivial, mt))
     chk.require(st.get("Q_sortinv_full_sweeps", 0) >= 1, "the (size, inversion position) sweep around the sort cut-off was not completed")
     chk.require(st.get("Q_below_cutoff", 0) > 100 and st.get("Q_at_or_above_cutoff", 0) > 100, "sort sizes on both sides of the 500 cut-off were not both exercised")
     chk.extra["windows"] = {
